@@ -80,12 +80,13 @@ func c15GenCoverage(c *hmain.Ctx, r *hx.Rng) {
 		c.Do("k8s-meta", which, hx.L(c15KCfg(max, 4*look, cut, cut && r.Bool(), only), hx.List(seq, c15KSx)), partials > 0 && len(seq) >= 2)
 	}
 
-	// ---- k8s-timeout-fresh (which 9): sequences WITH time-outs judged step by step against k_spec_t - a time-out drops
-	// what is buffered (recorded finding C15-k8s-timeout-drops-partial-line) and leaves an action that is as good as new: it
-	// is no longer busy, the processor may serve any other stream next.  Without a size limit this holds for the code
-	// (theorem c15_k8s_timeout_fresh_partial) and is checked on every run; with a limit it does not
-	// (c15_k8s_timeout_fresh_refuted: skipNextEvent survives the time-out and the NEXT line is discarded): family
-	// k8s-timeout-keeps-skip, emitted once the finding is listed.
+	// ---- k8s-timeout-fresh / k8s-timeout-keeps-skip (which 9): sequences WITH time-outs judged step by step against
+	// k_spec_t - a time-out drops what is buffered (recorded finding C15-k8s-timeout-drops-partial-line) and leaves an
+	// action that is as good as new: it is no longer busy, the processor may serve any other stream next (theorem
+	// c15_k8s_timeout_fresh, every configuration).  k8s-timeout-fresh: no size limit; k8s-timeout-keeps-skip:
+	// max_event_size 4..40 with oversize partial chunks before the time-outs - the code before /repo 2e55483 kept
+	// skipNextEvent across the time-out and discarded the NEXT line (former finding C15-k8s-timeout-keeps-skip; its
+	// witness runs first).  Both families are always emitted.
 	freshSeq := func(max int) ([]kch, int) {
 		var seq []kch
 		touts := 0
@@ -112,21 +113,17 @@ func c15GenCoverage(c *hmain.Ctx, r *hx.Rng) {
 		seq, touts := freshSeq(0)
 		c.Do("k8s-timeout-fresh", 9, hx.L(c15KCfg(0, split, r.Bool(), false, false), hx.List(seq, c15KSx)), touts > 0)
 	}
-	if knownListed(k8sSkipFinding) {
-		c.Do("k8s-timeout-keeps-skip", 9, k8sSkipWitness(), true)
-		for i := 0; i < 600*c.Scale; i++ {
-			max := r.Range(4, 40)
-			cut := r.Bool()
-			seq, touts := freshSeq(max)
-			c.Do("k8s-timeout-keeps-skip", 9, hx.L(c15KCfg(max, 4*look, cut, cut && r.Bool(), false), hx.List(seq, c15KSx)), touts > 0)
-		}
+	c.Do("k8s-timeout-keeps-skip", 9, k8sSkipWitness(), true)
+	for i := 0; i < 600*c.Scale; i++ {
+		max := r.Range(4, 40)
+		cut := r.Bool()
+		seq, touts := freshSeq(max)
+		c.Do("k8s-timeout-keeps-skip", 9, hx.L(c15KCfg(max, 4*look, cut, cut && r.Bool(), false), hx.List(seq, c15KSx)), touts > 0)
 	}
 }
 
-const k8sSkipFinding = "C15-k8s-timeout-keeps-skip"
-
 // max_event_size 9: "0123456789" does not fit (the rest of its line is to be skipped), time-out, then the complete lines
-// "ok" and "next": "ok" is discarded
+// "ok" and "next": both pass untouched (before /repo 2e55483 "ok" was discarded)
 func k8sSkipWitness() hx.Sx {
 	seq := []kch{c15Cri("0123456789"), {style: -1}, c15Cri("ok\n"), c15Cri("next\n")}
 	return hx.L(c15KCfg(9, 4*128*1024, false, false, false), hx.List(seq, c15KSx))
